@@ -270,27 +270,31 @@ fn run_on_error_instruction(
     env: &mut Env,
 ) -> Result<(), String> {
     if commands.exists("on_error") {
-        let mut script_instruction = ScriptInstruction::new();
-        script_instruction.command = Some("on_error".to_string());
-        script_instruction.arguments = Some(vec![
+        // the values are passed to the command as they are (not as script text that would be
+        // expanded again)
+        let arguments = vec![
             error,
             meta_info.line.unwrap_or(0).to_string(),
             meta_info.source.unwrap_or("".to_string()),
-        ]);
-        let instruction = Instruction {
-            meta_info: InstructionMetaInfo::new(),
-            instruction_type: InstructionType::Script(script_instruction),
-        };
+        ];
+        let output_variable = None;
 
-        let (command_result, output_variable) = run_instruction(
-            commands,
-            variables,
-            state,
-            instructions,
-            instruction,
-            0,
-            env,
-        );
+        let command_result = match commands.get_for_use("on_error") {
+            Some(command_instance) => {
+                let command_args = CommandInvocationContext {
+                    arguments,
+                    state,
+                    variables,
+                    output_variable: None,
+                    instructions,
+                    commands,
+                    line: 0,
+                    env,
+                };
+                command_instance.run(command_args)
+            }
+            None => CommandResult::Continue(None),
+        };
 
         match command_result {
             CommandResult::Exit(output) => {
